@@ -1,19 +1,177 @@
 /-
-C08 — RX/TX switching preserves the user's pipe-0 address and ACK reception (statements in progress).
+C08 — RX/TX switching preserves the user's pipe-0 address and ACK reception.
+
+Spec: `NrfModel/Spec/Pipe0.lean` (`Op`, `user0Step`, `RxEntryOk`, `TxReady`, `Post`, `CeRule`,
+`CeMatchesRole`, `RoleLogClean`, `PeerListens`).  Helper lemmas: `NrfProofs/C08Core.lean` (steps,
+`Reach`), `C08Ops.lean` (one lemma per method), `C08Inv.lean` (invariant `Inv8`, `Holds8`),
+`C08Start.lean` (the state after `__enter__`), `C08Ack.lean`, `C08Send.lean` (`send()`).
 -/
-import NrfModel.Rf24
+import NrfProofs.C08Start
+import NrfProofs.C08Send
 
 namespace Nrf.Props.C08
-open Nrf
+open Nrf Nrf.Spec Rf24
 
-/-- writing a short address overwrites the low bytes only and keeps the register 5 bytes long -/
-theorem C08_overlay_prefix (old new : Bytes) (ho : old.length = 5) (hn : new.length ≤ 5) :
-    (Radio.overlay old new).take new.length = new ∧ (Radio.overlay old new).length = 5 := by
-  unfold Radio.overlay
-  have h1 : new.take 5 = new := List.take_of_length_le hn
-  rw [h1]
-  constructor
-  · simp
-  · simp [List.length_append, List.length_drop, ho]; omega
+/-- the state after a sequence of calls (exceptions are caught by the caller: the state survives) -/
+def runOps (ops : List Op) (s : DrvState) : DrvState := ops.foldl (fun s op => (exec (runOp op) s).2) s
+
+/-- **C08_history.**  For EVERY sequence `ops` of `open_rx_pipe(p, a)`, `close_rx_pipe(p)`,
+`open_tx_pipe(a)`, `auto_ack = b`, `set_auto_ack(b, p)`, `listen = b` (any pipe numbers, any
+addresses of 1..5 bytes), from ANY state satisfying the invariant `Inv8` with ghost `u`, in ANY
+world (any other radios, FIFOs, air, fault list), after each call:
+ * it returned normally, or raised `IndexError` (pipe number outside 0..5) having changed nothing;
+ * (1) after `listen = True`: CE high, PRIM_RX set, pipe 0 enabled with the user's address as the
+   low bytes of RX_ADDR_P0 if the user has opened pipe 0, pipe 0 disabled otherwise;
+ * (2) after `open_tx_pipe(t)`: if PRIM_RX = 0 and EN_AA bit 0 is set, pipe 0 is enabled and `t` is
+   the low bytes of both RX_ADDR_P0 and TX_ADDR;
+ * (3) `listen = v` leaves CE at `v`, no other call changes CE; CE is high exactly in the RX role;
+   the radio never logged a PRIM_RX change with CE high;
+ * the model's `_pipe0_read_addr` equals the ghost `user0`. -/
+theorem C08_history (ops : List Op) (s : DrvState) (u : Option Bytes) (hops : ∀ op ∈ ops, op.Valid)
+    (hinv : Inv8 s u) (hlog : RoleLogClean s.radio) : Holds8 ops s u :=
+  holds8_of_inv ops s u hops hinv hlog
+
+/-- the invariant is an invariant: it holds after every call sequence, with the ghost advanced -/
+theorem C08_invariant (ops : List Op) (s : DrvState) (u : Option Bytes) (hops : ∀ op ∈ ops, op.Valid)
+    (hinv : Inv8 s u) : Inv8 (runOps ops s) (user0After u ops) := by
+  induction ops generalizing s u with
+  | nil => exact hinv
+  | cons op rest ih =>
+    exact ih _ _ (fun o ho => hops o (List.mem_cons_of_mem _ ho))
+      (step_ok op s u hinv (hops op List.mem_cons_self)).1.inv
+
+/-- the ghost `user0` coincides with the model's `_pipe0_read_addr` shadow after every sequence -/
+theorem C08_user0_is_shadow (ops : List Op) (s : DrvState) (u : Option Bytes) (hops : ∀ op ∈ ops, op.Valid)
+    (hinv : Inv8 s u) : (runOps ops s).d.pipe0ReadAddr = user0After u ops :=
+  (C08_invariant ops s u hops hinv).user
+
+/-- **The start state.**  Right after `__enter__` of ANY object whose shadows are in range, which is
+in the TX role and whose `_pipe0_read_addr` is consistent with its open-pipes shadow (in particular
+every freshly constructed object: `None`), in ANY world with the object's radio in it: the
+invariant holds with `user0 = _pipe0_read_addr`, CE is low, and — if the radio's role log was clean —
+`C08_history` applies to every call sequence from there. -/
+theorem C08_history_after_enter (ops : List Op) (d : Rf24) (w : World) (hops : ∀ op ∈ ops, op.Valid)
+    (hrid : d.rid < w.radios.length) (hr : InRange d) (hshape : RadioShape (w.radio d.rid))
+    (htx : d.config &&& 1 = 0)
+    (huser : ∀ a, d.pipe0ReadAddr = some a → (1 ≤ a.length ∧ a.length ≤ 5) ∧ d.openPipes &&& 1 ≠ 0)
+    (hlog : RoleLogClean (w.radio d.rid)) :
+    (exec enter ⟨d, w⟩).1 = .ok () ∧ (exec enter ⟨d, w⟩).2.radio.ce = false ∧
+    Inv8 (exec enter ⟨d, w⟩).2 d.pipe0ReadAddr ∧ Holds8 ops (exec enter ⟨d, w⟩).2 d.pipe0ReadAddr := by
+  obtain ⟨h1, h2, h3, h4⟩ := inv8_after_enter d w hrid hr hshape htx huser
+  refine ⟨h1, h3, h2, C08_history ops _ _ hops h2 ?_⟩
+  show roleLog ∉ (exec enter ⟨d, w⟩).2.radio.violations
+  rw [h4]
+  intro hmem
+  rcases List.mem_append.mp hmem with h | h
+  · exact hlog h
+  · unfold enterLog at h
+    split at h
+    · simp [roleLog] at h
+    · cases h
+
+/-- **CE is not touched outside `listen =`.**  Every other call of the alphabet is, in every world,
+a sequence of SPI transactions, shadow updates and sleeps — no CE edge — so CE stays high from the
+end of `listen = True` until the next `listen =`. -/
+theorem C08_ce_untouched (op : Op) (s : DrvState) (u : Option Bytes) (hv : op.Valid) (hinv : Inv8 s u)
+    (hnl : ∀ v, op ≠ .listen v) :
+    Reach false s (exec (runOp op) s).2 ∧ (exec (runOp op) s).2.radio.ce = s.radio.ce := by
+  have h := (step_ok op s u hinv hv).1.noCE hnl
+  exact ⟨h, h.ce_eq hinv.wf⟩
+
+/-- (2) is the ACK-reception condition of the air model (`Air.lean`, `attemptLoop`: pipe 0 enabled and
+`RX_ADDR_P0[0:aw] = TX_ADDR[0:aw]`) whenever the address width does not exceed `|t|` -/
+theorem C08_txready_canhear (r : Radio) (t : Bytes) (h : TxReady t r) (hrole : r.config &&& 1 = 0)
+    (haa : r.enAA &&& 1 ≠ 0) (haw : r.aw ≤ t.length) :
+    (Radio.bit r.enRxAddr 0 && r.rxAddr0.take r.aw == r.txAddr.take r.aw) = true :=
+  canHear_of_txReady r t h hrole haa haw
+
+example : ∃ (r : Radio) (t : Bytes), TxReady t r ∧ r.config &&& 1 = 0 ∧ r.enAA &&& 1 ≠ 0 ∧ r.aw ≤ t.length ∧ t ≠ r.rxAddr1 :=
+  ⟨{ config := 0x0E, enRxAddr := 1, rxAddr0 := [1, 2, 3, 4, 5], txAddr := [1, 2, 3, 4, 5] }, [1, 2, 3, 4, 5], by decide⟩
+
+/-- **C08_ack, air-level core.**  In the loss-free world, a transmitter that can hear
+acknowledgements (`canHear`: pipe 0 enabled and RX_ADDR_P0 = TX_ADDR on the address width — what
+(2) establishes) gets its packet acknowledged on the first attempt as soon as some other radio
+acknowledges it. -/
+theorem C08_ack_core (w : World) (a b : Nat) (k : Packet) (left made : Nat) (hf : w.faults = [])
+    (hcan : (w.radio a).canHear = true) (hb : b < w.radios.length) (hba : b ≠ a)
+    (hack : ((w.radio b).receive k).2.isSome = true) :
+    ∃ x, (World.attemptLoop a k (left + 1) made w).2 = (made + 1, some x) := by
+  have h := World.attemptLoop_first a k left made w hf hcan (World.deliver_ack w a b k hb hba hack)
+  obtain ⟨x, hx⟩ := Option.isSome_iff_exists.mp h.2
+  exact ⟨x, by rw [h.1, hx]⟩
+
+/-- **C08_ack.**  From any state of the invariant, right after `open_tx_pipe(t)`: if the radio is in
+the TX role with auto-ack on pipe 0 (the premise of (2)), the address width does not exceed `|t|`,
+the sender is idle (both FIFOs empty) with ACK payloads off, the air is loss-free, the payload is
+one `write()` accepts, and some other radio `b` is a listening peer for it (`PeerListens`: RX mode,
+same channel / rate / CRC / address width, an enabled auto-ack pipe on the TX address, matching
+payload-length rule, FIFO room) — then `send(buf)` returns `True` (not `False`, not an exception,
+not a hang) and the caller's buffer is unchanged. -/
+theorem C08_ack (s : DrvState) (u : Option Bytes) (t : Bytes) (b : Nat) (buf : Bytes) (m : Bool)
+    (hinv : Inv8 s u) (ht : AddrOk t) :
+    let s1 := (exec (openTxPipe t) s).2
+    s1.radio.config &&& 1 = 0 → s1.radio.enAA &&& 1 ≠ 0 → s1.radio.aw ≤ t.length →
+    s1.radio.txFifo = [] → s1.radio.rxFifo = [] → s1.radio.feature &&& 2 = 0 →
+    s1.w.faults = [] →
+    ¬ (s1.d.dynPl &&& 1 ≠ 0 ∧ (buf.isEmpty ∨ buf.length > 32)) → shapePayload s1.d buf ≠ [] →
+    b < s1.w.radios.length → b ≠ s1.d.rid → PeerListens s1.radio (s1.w.radio b) (shapePayload s1.d buf) →
+    ∃ s2, exec (send buf m false 0 false) s1 = (.ok (.bool true, buf), s2) := by
+  intro s1 hrole haa haw htx hrx hnap hflt hlen hpay hb hbd hpeer
+  obtain ⟨hstep, _⟩ := step_openTx t s u hinv ht
+  have hs1 : (exec (runOp (.openTx t)) s).2 = s1 := rfl
+  rw [hs1] at hstep
+  have hready : TxReady t s1.radio := hstep.post
+  have hcan := canHear_of_txReady s1.radio t hready hrole haa haw
+  have hpwr : s1.radio.config &&& 2 = 2 := hstep.inv.pwr
+  exact send_acked s1 b buf m hstep.inv.wf
+    (ackWorld_of s1.d s1.radio s1.w b buf hpwr hrole haa hcan hnap htx hrx hflt hlen hpay ⟨hb, hbd⟩ hpeer)
+
+/-! ### non-vacuity -/
+
+/-- a fresh object's shadows, one radio: the hypotheses of `C08_history_after_enter` hold -/
+example : ∃ (d : Rf24) (w : World), d.rid < w.radios.length ∧ InRange d ∧ RadioShape (w.radio d.rid) ∧
+    d.config &&& 1 = 0 ∧ RoleLogClean (w.radio d.rid) ∧
+    (∀ a, d.pipe0ReadAddr = some a → (1 ≤ a.length ∧ a.length ≤ 5) ∧ d.openPipes &&& 1 ≠ 0) :=
+  ⟨{ rid := 0, config := 0x0C }, World.fresh 1,
+   by decide, by decide, by decide, by decide, by decide, (fun a h => by cases h)⟩
+
+set_option maxRecDepth 100000 in
+/-- … and a state with a user address on pipe 0, in the RX role -/
+example : ∃ (d : Rf24) (w : World) (ops : List Op), (∀ op ∈ ops, op.Valid) ∧
+    (runOps ops (exec enter ⟨d, w⟩).2).radio.ce = true ∧
+    user0After d.pipe0ReadAddr ops = some [0xA1, 0xA2, 0xA3] :=
+  ⟨{ rid := 0, config := 0x0C }, World.fresh 1,
+   [.openRx 0 [0xA1, 0xA2, 0xA3], .openTx [1, 2, 3, 4, 5], .listen true], by decide, by decide, by decide⟩
+
+namespace Demo
+/-- two radios: the sender's object right after `__enter__` (registers = its default shadows), and a
+    peer listening on pipe 1 with the default configuration -/
+def t5 : Bytes := [0x31, 0x32, 0x33, 0x34, 0x35]
+def senderR : Radio :=
+  { config := 0x0E, enAA := 0x3F, enRxAddr := 0, feature := 5, dynpd := 0x3F, rfCh := 76, rfSetup := 7,
+    setupRetr := 0x5F, rxAddr0 := [0, 0, 0, 0, 0], txAddr := [0, 0, 0, 0, 0] }
+def peerR : Radio :=
+  { config := 0x0F, ce := true, enAA := 0x3F, enRxAddr := 2, rxAddr1 := t5, feature := 5, dynpd := 0x3F,
+    rfCh := 76, rfSetup := 7, setupRetr := 0x5F }
+def s0 : DrvState := ⟨{ rid := 0, config := 0x0E }, { radios := [senderR, peerR], busyUntil := [0, 0] }⟩
+
+/-- the invariant holds in that state -/
+example : Inv8 s0 none :=
+  ⟨(by unfold DrvState.Wf; decide), by decide, by decide, by decide, by decide, by decide, by decide, by decide,
+   by decide, by decide, by decide, by decide, by decide, (fun a h => by cases h), by decide, by decide⟩
+
+set_option maxRecDepth 100000 in
+/-- every hypothesis of `C08_ack` holds in this world, for the payload `b"p"` -/
+example :
+    let s1 := (exec (openTxPipe t5) s0).2
+    AddrOk t5 ∧ s1.radio.config &&& 1 = 0 ∧ s1.radio.enAA &&& 1 ≠ 0 ∧ s1.radio.aw ≤ t5.length ∧
+    s1.radio.txFifo = [] ∧ s1.radio.rxFifo = [] ∧ s1.radio.feature &&& 2 = 0 ∧ s1.w.faults = [] ∧
+    ¬ (s1.d.dynPl &&& 1 ≠ 0 ∧ (([0x70] : Bytes).isEmpty ∨ ([0x70] : Bytes).length > 32)) ∧
+    shapePayload s1.d [0x70] ≠ [] ∧ 1 < s1.w.radios.length ∧ 1 ≠ s1.d.rid ∧
+    PeerListens s1.radio (s1.w.radio 1) (shapePayload s1.d [0x70]) := by
+  refine ⟨by decide, by decide, by decide, by decide, by decide, by decide, by decide, by decide, by decide,
+    by decide, by decide, by decide, 1, by decide, by decide, by decide⟩
+
+end Demo
 
 end Nrf.Props.C08
